@@ -494,3 +494,75 @@ func init() {
 	register("opts", &family{replay: replayOpts, serial: true, initOnce: optsInit,
 		rule: "one case = one setter call of a history (registers compared after it) or one probe comparison (operation class under full vs projected registers; after restore vs fresh process); non-trivial = setter calls"})
 }
+
+// ---------------------------------------------------------------------------
+// family "mxj" (C18, integrated): a history of setter calls (random walk of the integrated
+// specification Mxj.tla), after which the real decoders and encoders must produce what the codec
+// specifications predict for the registers the walk ended in.
+// ---------------------------------------------------------------------------
+type mxjLine struct {
+	F           string     `json:"f"`
+	Hist        []optCall  `json:"hist"`
+	Dec         *tagged.TV `json:"dec"`
+	CastDefault bool       `json:"castdefault"`
+	DecCast     *tagged.TV `json:"deccast"`
+	Seq         *tagged.TV `json:"seq"`
+	Enc         string     `json:"enc"`
+	Restore     []optCall  `json:"restore"`
+}
+
+const mxjProbeDoc = `<D-a x-Y="1" B=" &amp;">` + "\n" + `<e-f> 7 </e-f><e-f>&lt;v</e-f><g/><h k="q">true</h>` + "\n" + `</D-a>`
+const mxjProbeSeqDoc = `<p:A z-z="1"><!--c--><B-c> v </B-c><d>&lt;7</d></p:A>`
+
+func replayMxj(line []byte, a *Acc) {
+	var l mxjLine
+	if err := json.Unmarshal(line, &l); err != nil {
+		panic(err)
+	}
+	hs := []string{}
+	for _, c := range l.Hist {
+		hs = append(hs, c.Fn+"("+c.Arg+")")
+	}
+	one := func(sig, detail string) { a.Mis(sig, "after "+strings.Join(hs, " ")+": "+detail, l) }
+	for _, c := range l.Hist {
+		applyCall(c.Fn, c.Arg)
+	}
+	n := 0
+	chk := func(name string, got, want string) {
+		n++
+		if got != want {
+			one("mxj:"+name, fmt.Sprintf("%s = %s, the codec specification under the current registers gives %s", name, short(got), short(want)))
+		}
+	}
+	m, err := mxj.NewMapXml([]byte(mxjProbeDoc))
+	chk("NewMapXml", tagged.CanonGo(m)+fmt.Sprint(err), l.Dec.Norm()+"<nil>")
+	if l.CastDefault {
+		m, err = mxj.NewMapXml([]byte(mxjProbeDoc), true)
+		chk("NewMapXml(cast)", tagged.CanonGo(m)+fmt.Sprint(err), l.DecCast.Norm()+"<nil>")
+	}
+	ms, err := mxj.NewMapXmlSeq([]byte(mxjProbeSeqDoc))
+	chk("NewMapXmlSeq", tagged.CanonGo(map[string]interface{}(ms))+fmt.Sprint(err), l.Seq.Norm()+"<nil>")
+	pm := mxj.Map{"doc": map[string]interface{}{"-x": "1", "@y": "2", "#text": "t<", "_text": "u",
+		"e": []interface{}{"a", "", map[string]interface{}{"-k": "v"}}, "g": map[string]interface{}{}}}
+	mxj.XmlCheckIsValid(false) // (the probe text is not escaped in some register states: bytes are compared, not validity)
+	b, err := pm.Xml()
+	wantErr := l.Enc == "!ERR"
+	if wantErr {
+		chk("Map.Xml(error class)", cls(err), "err")
+	} else {
+		chk("Map.Xml", string(b)+fmt.Sprint(err), l.Enc+"<nil>")
+	}
+	for _, c := range l.Restore {
+		applyCall(c.Fn, c.Arg)
+	}
+	mxj.SetCheckTagToSkipFunc(nil)
+	a.Count(n, n)
+	if len(l.Hist) > 5 {
+		a.Sample(map[string]interface{}{"history": hs, "expected_decode": l.Dec.Norm(), "expected_xml": l.Enc})
+	}
+}
+
+func init() {
+	register("mxj", &family{replay: replayMxj, serial: true,
+		rule: "one case = one codec call (NewMapXml, NewMapXml with cast, NewMapXmlSeq, Map.Xml) after a random history of 12 setter calls, compared with the codec specification evaluated under the registers the history ends in; all cases non-trivial"})
+}
